@@ -36,6 +36,15 @@ CHECKS = {
  "C20": dict(cat="exploration", ref="6/C20", tech="reference BASIC09 interpreter executing the helper procedures from the current ecb.b09 against the Color BASIC definitions; bounded-exhaustive arguments; call sites through convert()",
    text="ecb_instr, ecb_string and ecb_read_filter are interpreted for every argument tuple inside the stated bounds (exhaustive) and compared with the Color BASIC definition; call sites are converted by the real tool and executed with distinguishable argument roles",
    note="trusted base: vlib/b09ref (MID$, LEN, VAL, FOR semantics from the manual)"),
+ "C06": dict(cat="exploration", ref="6/C06", tech="label/jump-table monitor over parsed convert() output with per-line markers, refusal-class monitor, and dynamic runs of the 32700 dispatcher on the reference interpreter",
+   text="random reference graphs: every jump target must label exactly the emitted line that carries the marker of that source line; label sets with/without filtering are compared with the referenced set; programs that must be refused must raise the documented class; the dispatcher is executed with break and non-break error codes",
+   note="markers are PRINT \"L<n>\" statements; errnum is treated as the error-code source"),
+ "C10": dict(cat="exploration", ref="6/C10", tech="declaration-table monitor: DIM/identifier uses parsed from convert() output vs the table computed from the abstract source program",
+   text="programs place each variable kind in chosen syntactic positions; arrays must be declared once, before use, with bound+1 (or 11) per dimension; with a non-default string size every string identifier must carry the expected STRING[n]",
+   note="expected sizes follow the property text (per-name size only for names DIMensioned in the source)"),
+ "C13": dict(cat="exploration", ref="6/C13", tech="post-condition monitor on bundles: closure over the library call graph computed by the reference parser, verbatim comparison of bundled procedures with the library text, user text comparison",
+   text="bundle structure (root last, sorted, unique, exactly the RUN-closure), placeholder substitution and preservation of the user's procedure are checked for programs with hostile literals/DATA/comments, nine procedure names and three string sizes",
+   note="call graph = RUN statements as parsed (strings, DATA, comments excluded); comment text is not protected by the property"),
 }
 
 def main():
